@@ -1306,8 +1306,9 @@ def probe_unchecked_bounds(seed):
     """What the real code does with index bounds the constructor should not accept
     (kmax > K, kmin < 0): reported, not judged."""
     out = []
-    for label, kmin, kmax in (('kmax=K+2', 0, 5), ('kmin=-1', -1, 3)):
-        cfg = TDConfig(3, [1, 1, 1], kmin, kmax, True, 2.0, 'uniform', 'normal')
+    for label, kmin, kmax, istd in (('kmax=K+2', 0, 5, 2.0), ('kmin=-1', -1, 3, 2.0), ('kmax=K+2, wide index proposal', 0, 5, 16.0),
+                                    ('kmax=K+1, non-successive', 1, 4, 3.0)):
+        cfg = TDConfig(3, [1, 1, 1], kmin, kmax, 'non-successive' not in label, istd, 'uniform', 'normal')
         res = 'ran 400 steps without error'
         with seeded_generator(seed + 5):
             try:
